@@ -85,6 +85,21 @@ Theorem C08_workers_cannot_run_forever : forall tr s, run init tr = Some s ->
   length tr' + measure s' <= measure s.
 Proof. exact workers_cannot_run_forever. Qed.
 
+(* Work conservation, in every phase of the lifecycle (started, stopped, dropping, dropped): whenever no worker and
+   not the recovery thread can take a step — all of them blocked or gone — no task is queued, none is running, no
+   recovery is pending, and done ++ panicked is a permutation of the submitted ids. "Already queued tasks finish":
+   a pool that still has work can always move. *)
+Theorem C08_no_pending_work_when_quiescent : forall tr s, run init tr = Some s ->
+  (forall l, worker_label l = true -> step s l = None) ->
+  qtasks (queue s) = [] /\ running s = [] /\ rchan s = [] /\ Permutation (done s ++ panicked s) (submitted s).
+Proof. exact no_pending_work_when_quiescent. Qed.
+
+(* FIFO: the ids handed to workers (in the order of the Recv steps of the trace) followed by the ids still queued
+   are the submitted ids in submission order. *)
+Theorem C08_fifo_order : forall tr s, run init tr = Some s ->
+  flat_map recv_of tr ++ qtasks (queue s) = submitted s /\ submitted s = flat_map exec_of tr.
+Proof. exact fifo_order. Qed.
+
 (* The caller is never blocked, whether or not stop was called first: Stop is a single enabled step; DropBegin is
    enabled in every live handle state and, whatever the other threads do meanwhile, DropEnd stays enabled. *)
 Theorem C08_drop_terminates_either_way : forall tr s, run init tr = Some s ->
@@ -150,6 +165,8 @@ Print Assumptions C08_at_most_n_running.
 Print Assumptions C08_panic_isolated.
 Print Assumptions C08_shutdown_terminates.
 Print Assumptions C08_workers_cannot_run_forever.
+Print Assumptions C08_no_pending_work_when_quiescent.
+Print Assumptions C08_fifo_order.
 Print Assumptions C08_drop_terminates_either_way.
 Print Assumptions C08_drop_without_stop_refuted.
 Print Assumptions C08_old_differs_only_in_drop.
